@@ -56,7 +56,7 @@ def h_dt(f, k, m, pastify=False, defs=None, style='sub', jitter=False, rounds=1)
     return body
 
 
-def h_ct(f, k, m, n, defs=None, rounds=1):
+def h_ct(f, k, m, n, defs=None, rounds=1, txt=None):
     f = T(f)
     defs_list = [(nm, T(d)) for nm, d in (defs or [])]
     full = inline(f, dict(defs_list))
@@ -65,7 +65,7 @@ def h_ct(f, k, m, n, defs=None, rounds=1):
     def mk():
         if defs_list:
             return _specs('sub', defs_list, f, vs, 'online', _mk_ct, False)[0]
-        return ct.make_spec('online', 'out = ' + text(f), vs)
+        return ct.make_spec('online', 'out = ' + (txt or text(f)), vs)
 
     def body(env):
         A = env.A
@@ -151,6 +151,10 @@ def obligations(tier, rng):
     for f in [('once', X), ('once_t', X, 0, 1), ('since', X, Y)]:
         two = len(variables(f)) > 1
         out.append(ob('C10', 'ct', 'ct/%s/k=1/resets=2' % text(f), f=f, k=1, m=1, n=2, rounds=2, max_paths=30000, wall=900))
+    for f, txt in [(('once_t', X, 0, 2), 'once[0:2000ms](x)'), (('historically_t', X, 1, 2), 'historically[1000ms:2s](x)'),
+                   (('since_t', X, Y, 0, 1), '(x) since[0:1000ms] (y)')]:
+        for k in (0, 1):
+            out.append(ob('C10', 'ct', 'ct-units/%s/k=%d' % (txt, k), f=f, txt=txt, k=k, m=1, n=2, rounds=1 + k, max_paths=30000, wall=900))
     out.append(ob('C10', 'ct', 'ct/subspec/p=once(x)/out=not(p)/k=1', f=('not', P), defs=[['p', ('once', X)]], k=1, m=2, n=2))
     seen = set()
     return [o for o in out if not (o['oid'] in seen or seen.add(o['oid']))]
